@@ -252,7 +252,11 @@ def head_case(res, W, rng):
         H.HandshakePeer(conn, response=resp)
 
     net_ = H.make_net(on_conn)
-    opts = {"subprotocols": list(off)} if off else {}
+    # the offered subprotocols as a list, a tuple or a one-shot iterable (the request offers them all the same)
+    container = rng.choice(["list", "list", "tuple", "iterator", "generator"]) if off else "list"
+    opts = {"subprotocols": {"list": list, "tuple": tuple, "iterator": iter, "generator": lambda o: (x for x in o)}[container](off)} if off else {}
+    if off:
+        res.count("subprotocols_as:" + container)
     # a previous connection, so that "prev-key" is a real earlier key
     if d["accept"] == "prev-key":
         keys.append(None)
@@ -265,6 +269,17 @@ def head_case(res, W, rng):
     kind, exc, w = attempt(W, "ws://sim.test/x", use_create, opts)
     exp = verdict(d)
     case = {k: v for k, v in d.items()}
+    case["subprotocols_container"] = container
+    if container in ("iterator", "generator") and exp == "accept":
+        # a one-shot iterable is used up by writing the request; whether a right selection is then still recognised is not part of the
+        # statement (only: never connected without one)
+        res.count("unjudged_accept_with_one_shot_subprotocols")
+        if w is not None:
+            try:
+                w.shutdown()
+            except Exception:  # noqa
+                pass
+        return
     dev = "status" if d["status"] != 101 else "accept:" + d["accept"] if d["accept"] != "right" else "headers"
     check_outcome(res, W, exp, kind, exc, w, net_, case, "head", {"deviation": dev if exp == "reject" else "none"})
     if exp == "accept" and kind == "returned" and d.get("selected") and off:
